@@ -577,8 +577,10 @@ let cmd_pipe () =
     done
   with End_of_file -> ()
 
-(* the net of component models that Liveness.pipeline_completes talks about, run to rest (PipeNet.v);
-   only pipelines of map/filter/scan/take/skip over a finite input: anything else prints "-" *)
+(* the net of component models that LivenessG.pipeline_completes / take_stops talk about, run to rest
+   (PipeNetG.v); only pipelines of map/filter/scan/take/skip: anything else prints "-".  The step bound is the
+   theorems' own: computed from the length of a finite input, or (unbounded input) from the count of the
+   first take when only map/scan stages precede it; an unbounded input without such a take prints "-". *)
 let cmd_netpipe () =
   try
     while true do
@@ -589,22 +591,31 @@ let cmd_netpipe () =
           | Some i -> (String.sub t 0 i, String.sub t (i + 1) (String.length t - i - 1))
           | None -> (t, "")) (tokens line) in
         let xs = List.map nat_of_int (parse_list (get h "xs" "-")) in
+        let inf = match get h "inf" "-" with "-" -> None | b -> Some (int_of_string b) in
         let st = get h "stages" "-" in
-        let unary = get h "inf" "-" = "-" &&
-          List.for_all (fun s -> s = "" || List.exists (fun pre ->
-            String.length s > String.length pre && String.sub s 0 (String.length pre) = pre)
-            ["map:"; "filter:"; "scan:"; "take:"; "skip:"]) (String.split_on_char ';' (if st = "-" then "" else st)) in
-        if not unary then print_endline "-" else begin
-          let stages = if st = "-" || st = "" then []
-            else List.concat_map parse_stage (List.filter (fun s -> s <> "") (String.split_on_char ';' st)) in
-          match net_pipe_run stages xs with
-          | None -> print_endline "-"
-          | Some (((outs, nx), fin), idle) ->
-              let u = String.concat " " (List.map (fun v -> Printf.sprintf "user:%d" (int_of_nat v)) outs) in
-              let u = if u = "" then "" else u ^ " " in
-              Printf.printf "F: %snexts=%d | P: %snexts=%d done=%d%s\n" u (int_of_nat nx) u (int_of_nat nx)
-                (if fin then 1 else 0) (if idle then "" else " NOT-AT-REST")
-        end
+        let parts = List.filter (fun s -> s <> "") (String.split_on_char ';' (if st = "-" then "" else st)) in
+        let has pre s = String.length s > String.length pre && String.sub s 0 (String.length pre) = pre in
+        let unary = List.for_all (fun s -> List.exists (fun pre -> has pre s)
+                                   ["map:"; "filter:"; "scan:"; "take:"; "skip:"]) parts in
+        (* the take that cuts an unbounded input: only map/scan before it *)
+        let rec first_take = function
+          | [] -> None
+          | s :: r -> if has "take:" s then Some (int_of_string (String.sub s 5 (String.length s - 5)))
+                      else if has "map:" s || has "scan:" s then first_take r else None in
+        let bound = match inf with
+          | None -> Some (List.length xs)
+          | Some _ -> (match first_take parts with Some n when n >= 1 -> Some n | _ -> None) in
+        match unary, bound with
+        | true, Some b ->
+          let stages = List.concat_map parse_stage parts in
+          (match net_pipe_run stages xs (match inf with None -> None | Some b0 -> Some (nat_of_int b0)) (nat_of_int b) with
+           | None -> print_endline "-"
+           | Some (((outs, nx), fin), idle) ->
+               let u = String.concat " " (List.map (fun v -> Printf.sprintf "user:%d" (int_of_nat v)) outs) in
+               let u = if u = "" then "" else u ^ " " in
+               Printf.printf "F: %snexts=%d | P: %snexts=%d done=%d%s\n" u (int_of_nat nx) u (int_of_nat nx)
+                 (if fin then 1 else 0) (if idle then "" else " NOT-AT-REST"))
+        | _ -> print_endline "-"
       end
     done
   with End_of_file -> ()
